@@ -527,37 +527,37 @@ theorem setVar_isNode (h : Nat → ℝ) (t : OT ℝ) (ht : ∃ b v kids, t = OT.
   obtain ⟨b, v, kids, rfl⟩ := ht
   exact ⟨_, _, _, rfl⟩
 
-/-- the constructed tree: covering hypotheses hold, only indices below `n` are stored, and with
-at least two positions the root is a node -/
+/-- the constructed tree: covering hypotheses hold and only indices below `n` are stored (for
+every `n`, incl. the one-position tree whose root is a leaf and the empty tree) -/
 theorem build_spec (pos : Nat → V3 ℝ) (n : Nat) (box : Box3 ℝ) (h : Nat → ℝ) (c : V3 ℝ) (hb : PosBox box)
-    (hin : ∀ i < n, InBox box (pos i)) (hn : 2 ≤ n) :
+    (hin : ∀ i < n, InBox box (pos i)) :
     Covered (fun i => dist (pos i) c) (fun b => boxDist b c) h (build pos n box h) ∧
-    (∀ i ∈ leavesOf (build pos n box h), i < n) ∧
-    ∃ b v kids, build pos n box h = OT.node b v kids := by
+    (∀ i ∈ leavesOf (build pos n box h), i < n) := by
+  unfold build
+  by_cases hn : n = 0
+  · rw [if_pos hn]
+    exact ⟨Covered.empty, fun i hi => by simp [leavesOf] at hi⟩
+  rw [if_neg hn]
   have hl : ∀ j ∈ List.range (n - 1), j + 1 < n := by
     intro j hj; rw [List.mem_range] at hj; omega
   have h0 : Boxed pos (OT.leaf 0 : OT ℝ) box ∧ ∀ i ∈ leavesOf (OT.leaf 0 : OT ℝ), i < n := by
     refine ⟨hin 0 (by omega), ?_⟩
     intro i hi; simp only [leavesOf, List.mem_singleton] at hi; omega
   have sp := buildLoop_spec pos n box hb hin _ hl _ h0
-  have hne : List.range (n - 1) ≠ [] := by
-    intro he
-    have : (List.range (n - 1)).length = 0 := by rw [he]; rfl
-    rw [List.length_range] at this; omega
-  refine ⟨setVar_covered pos h c _ box hb sp.1, ?_, setVar_isNode h _ (foldl_isNode pos box _ _ (Or.inl hne))⟩
+  refine ⟨setVar_covered pos h c _ box hb sp.1, ?_⟩
   intro i hi
-  unfold build at hi
-  rw [setVar_leaves] at hi
+  simp only [setVar_leaves] at hi
   exact sp.2 i hi
 
-/-- the searches start below the root: same statement for `searchRoot` -/
+/-- the searches start below the root (at the root itself if it is a leaf): same statement for
+`searchRoot` -/
 theorem searchRoot_eq_filter (pd : Nat → ℝ) (bd : Box3 ℝ → ℝ) (h : Nat → ℝ) (radius : Option ℝ)
-    (hr : ∀ r, radius = some r → 0 ≤ r) (b : Box3 ℝ) (v : ℝ) (kids : Fin 8 → OT ℝ)
-    (hc : Covered pd bd h (OT.node b v kids)) :
-    searchRoot pd bd h radius (OT.node b v kids) =
-      (leavesOf (OT.node b v kids)).filter (fun i => decide (pd i ≤ limOf h radius i)) := by
+    (hr : ∀ r, radius = some r → 0 ≤ r) (t : OT ℝ) (hc : Covered pd bd h t) :
+    searchRoot pd bd h radius t = (leavesOf t).filter (fun i => decide (pd i ≤ limOf h radius i)) := by
   cases hc with
-  | node _ _ _ _ _ hk =>
+  | empty => exact search_eq_filter pd bd h radius hr _ Covered.empty
+  | leaf i => exact search_eq_filter pd bd h radius hr _ (Covered.leaf i)
+  | node b v kids _ _ hk =>
     simp only [searchRoot, leavesOf]
     rw [filter_foldl_append]
     simp only [List.filter_nil]
